@@ -249,3 +249,28 @@ CHECKS["C07"] = dict(
         dict(name="heal", test="TestHeal", kind="rapid", checks={"quick": 14, "thorough": 500}, shards=16, timeout={"quick": 900, "thorough": 3400}, shrinktime="90s", gomaxprocs=4, crash_is_violation=True),
     ],
 )
+
+CHECKS["C02"] = dict(
+    pkg="c02", level="fault_enumeration",
+    engine="sim + verifpoint pause points: the harness owns the schedule at named points of the backend client and the session",
+    rule=("part directed: rapid-generated cases: 1..3 masters, 1..3 client connections each pipelining 1..30 requests (GET/SET and MGET/MSET "
+          "spanning two nodes), and 1..2 schedule directives (pause point x n-th hit on the connection to a chosen node x fault x hold "
+          "time): points = Send entry, Send after the quit check before the enqueue, backend writer after taking a request, backend "
+          "writer with the encoded request in hand before the hand-over to the sent queue, backend reader before pairing a reply, "
+          "connection shutdown before / after the final drain, client-facing writer before waiting; faults = backend drops the "
+          "connection (FIN / RST), backend stops and restarts, OnSvcHostRemove(host), OnSvcAllHostReplace, proxy Stop, none; hold 0..30 ms. "
+          "part directed-grid enumerates 8 points x 6 faults x hit index {1,2,3,5,8} x hold {2,20 ms} = 480 schedules. part stress (no "
+          "hooks): 2..12 connections x 2000..20000 windowed requests while node connections are killed after a random number of commands "
+          "(optionally mid-reply / RST) again and again. Oracle: every request written on a connection the harness keeps open receives "
+          "exactly one reply (value or error) within the hang deadline (10 s, confirmed by two goroutine dumps 1 s apart), no surplus "
+          "bytes, well-formed reply stream; a crash of the test process (close of closed channel = double completion) is a violation. "
+          "Non-trivial: a directive fired (the fault hit a request queued / in the writer's hand / awaiting its answer); stress: kills "
+          "were armed. Distinct by canonical JSON."),
+    assumptions=["interleavings are explored through the named pause points and natural scheduling, not exhaustively",
+                 "when the proxy itself closes the client connection (proxy Stop) no further reply is owed"],
+    parts=[
+        dict(name="directed", test="TestDirected", kind="rapid", checks={"quick": 40, "thorough": 1500}, shards=16, timeout={"quick": 900, "thorough": 3400}, shrinktime="60s", gomaxprocs=4, crash_is_violation=True),
+        dict(name="directed-grid", test="TestDirectedGrid", kind="plain", shards=16, timeout={"quick": 900, "thorough": 1800}, gomaxprocs=4, crash_is_violation=True, records=["directed", "directed-grid"]),
+        dict(name="stress", test="TestStress", kind="rapid", checks={"quick": 3, "thorough": 60}, shards=8, timeout={"quick": 900, "thorough": 3400}, shrinktime="30s", crash_is_violation=True),
+    ],
+)
